@@ -238,7 +238,7 @@ const c10Rule = "rapid prints a canonical load file (either dialect, occasionall
 
 func TestC10(t *testing.T) {
 	hx.Run(t, hx.Prop[corruptCase]{
-		ID: "C10", Sub: "corrupt", Rule: c10Rule, Checks: hx.Scale(150000, 6000000),
+		ID: "C10", Sub: "corrupt", Rule: c10Rule, Checks: hx.Scale(150000, 60000000),
 		Gen: genCorruptCase, Judge: judgeCorruptCase,
 	})
 }
